@@ -1,18 +1,22 @@
 #![allow(dead_code, unused_imports, unused_variables)]
 mod ctx;
+mod gen;
+mod docs;
 mod obs;
 mod refmodel;
 mod spec;
 
+mod c03;
 mod c15;
 mod c16;
 
 use ctx::{Ctx, Mode, Tier};
 
-const PROPS: &[&str] = &["C15", "C16"];
+const PROPS: &[&str] = &["C03", "C15", "C16"];
 
 fn run_check(ctx: &mut Ctx) {
     match ctx.prop.as_str() {
+        "C03" => c03::run(ctx),
         "C15" => c15::run(ctx),
         "C16" => c16::run(ctx),
         p => panic!("machinery: unknown property {}", p),
@@ -28,6 +32,19 @@ fn main() {
     let args: Vec<String> = std::env::args().collect();
     if args.len() < 3 {
         usage();
+    }
+    if args[1] == "count" {
+        let rs = spec::v_refspec();
+        for n in 1..=args[2].parse::<usize>().unwrap() {
+            for (name, globals) in [("no globals", vec![]), ("Tag+Void", vec![spec::ID_TAG, spec::ID_VOID]), ("all globals", vec![spec::ID_TAG, spec::ID_VOID, spec::ID_CRC])] {
+                let g = gen::ForestGen { rs: &rs, max_nodes: n, globals, exclude: vec![] };
+                let mut c = 0u64;
+                let mut masters = 0u64;
+                g.run(&mut |s| { c += 1; masters += s.iter().filter(|x| rs.ty(x.1) == Some(spec::Ty::Master)).count() as u64; true });
+                println!("N={} {}: forests={} avg masters={:.2}", n, name, c, masters as f64 / c as f64);
+            }
+        }
+        return;
     }
     if args[1] == "worker" {
         if args.len() < 5 {
